@@ -2305,9 +2305,36 @@ def _index_loops(block: tuple) -> tuple:
             return st
         return ("for", var, ("c", ("a", it, "values"), (), ()), Sigma(raw_subst={elem: var}).apply(body), st[4])
 
+    def own_break(body):
+        for x in body:
+            if isinstance(x, tuple) and x:
+                if x[0] == "break":
+                    return True
+                if x[0] == "if" and len(x) == 4 and (own_break(x[2]) or own_break(x[3])):
+                    return True
+                if x[0] in ("with", "try") and any(own_break(b) for b in x[1:] if isinstance(b, tuple) and b and isinstance(b[0], tuple)):
+                    return True
+        return False
+
+    def product_loop(st):
+        """``for a, b in product(xs, ys): body`` (no break in body) is ``for a in xs: for b in ys: body``"""
+        var, it, body = st[1], st[2], st[3]
+        if not (isinstance(var, tuple) and var[:1] == ("tuple",) and isinstance(it, tuple) and it[:1] == ("c",) and not it[3]
+                and it[1] in (("g", "product"), ("a", ("g", "itertools"), "product")) and len(it[2]) == len(var[1]) >= 2
+                and not any(isinstance(a, tuple) and a[:1] == ("star",) for a in it[2]) and not own_break(body)):
+            return st
+        # the inner ranges must not depend on what the loop changes: plain ranges / names only
+        if any(contains(a, v) for a in it[2] for v in var[1]):
+            return st
+        inner = tuple(body)
+        for v, src in reversed(list(zip(var[1], it[2]))):
+            inner = (conv(("for", v, src, inner, ())),)
+        return inner[0]
+
     def conv(st):
         if not (isinstance(st, tuple) and st and st[0] == "for" and len(st) == 5 and not st[4]):
             return st
+        st = product_loop(st)
         st = values_loop(items_loop(st))
         var, it, body = st[1], st[2], st[3]
         if not (isinstance(var, tuple) and var[:1] == ("v",) and isinstance(it, tuple) and it[:2] == ("c", ("g", "range")) and not it[3]):
